@@ -106,6 +106,9 @@ func (in *Interp) lookupIntrinsic(fn *ssa.Function) intrinsic {
 
 // nativeMethod resolves interface method calls on engine-native receivers.
 func (in *Interp) nativeMethod(recv Iface, m *types.Func) *NativeFunc {
+	if nf := in.crc32Method(recv, m.Name()); nf != nil {
+		return nf
+	}
 	return nil
 }
 
